@@ -118,11 +118,12 @@ def check_phase(ctx: Any, st: Any, where: str) -> None:
         ctx.check(not fams, 'phase-enabled-after-the-hand', lambda: f'{where}: {fams}')
 
 
-def check_order(ctx: Any, st: Any) -> None:
+def check_order(ctx: Any, st: Any, voluntary: Any = ()) -> None:
     prev = None
     for op in st.operations:
         ph = PHASE_OF_OP.get(type(op).__name__)
-        if ph is None:
+        if ph is None or any(op is v for v in voluntary):
+            # (a winner tabling his hand after everybody folded is outside the phase sequence: no showdown phase exists)
             continue
         ctx.check(ph in NEXT[prev], 'phase-order', lambda: f'{prev} -> {ph} at {type(op).__name__}')
         prev = ph
@@ -150,6 +151,8 @@ def not_left_to_user(ctx: Any, st: Any, op: str) -> None:
 def run_hand(ctx: Any, st: Any, script: str, reverse: bool, limit: int) -> None:
     k = 0
     steps = 0
+    shown_voluntarily: list = []
+    voluntary_ops: list = []
     check_phase(ctx, st, 'after construction')
     while st.status:
         steps += 1
@@ -165,6 +168,24 @@ def run_hand(ctx: Any, st: Any, script: str, reverse: bool, limit: int) -> None:
             if op is None:
                 ctx.fail('stuck', lambda: f'hand not over, nothing available; last ops {[type(o).__name__ for o in st.operations[-4:]]}')
             not_left_to_user(ctx, st, op)
+            if op in ('deal_hole', 'deal_board'):
+                # progress: a dealing of NO cards is not a legal operation (it could be repeated for ever)
+                for empty in ((), '', 0):
+                    ctx.check(not getattr(st, 'can_' + op)(empty), 'legal-operation-without-progress',
+                              lambda: f'{op}({empty!r}) is accepted')
+            if st.street is None and op in ('push_chips', 'pull_chips') and not shown_voluntarily \
+                    and sum(1 for x in st.statuses if x) == 1:
+                # everybody else folded: the winner may still table his hand (explicit seat); this is a legal
+                # operation that must work and leave the hand in the same phase
+                w = list(st.statuses).index(True)
+                shown_voluntarily.append(w)          # asked once per hand
+                if st.can_show_or_muck_hole_cards(True, w) and ctx.flag('voluntary-show'):
+                    voluntary_ops.append(C.call(ctx, st.show_or_muck_hole_cards, True, w))
+                    ctx.check(pending(st, None, reverse) == op, 'voluntary-show-changed-the-phase',
+                              lambda: f'{op} -> {pending(st, None, reverse)}')
+                    ctx.cover('voluntary-show')
+                    check_phase(ctx, st, f'step {steps} voluntary show')
+                    continue
             if op == 'select_runout_count':
                 # the players' choice: any preference is a legal operation
                 if st.player_count == 2:
@@ -177,7 +198,7 @@ def run_hand(ctx: Any, st: Any, script: str, reverse: bool, limit: int) -> None:
         ctx.check(len(st.operations) > n_ops, 'no-progress')
         ctx.ops += len(st.operations) - n_ops
         check_phase(ctx, st, f'step {steps}')
-    check_order(ctx, st)
+    check_order(ctx, st, voluntary_ops)
     ctx.check(len(st.operations) <= limit, 'too-many-operations')
 
 
